@@ -639,3 +639,37 @@ package bt
 //@   bytes token
 //@   ensures[C15.pay_to_address] (and (=> (spec.addr_ok (b58dec addr)) (= err nil)) (=> (= err nil) (and (= (len (. tx Outputs)) (+ (old (len (. tx Outputs))) 1)) (not (nil? (at (. tx Outputs) (old (len (. tx Outputs)))))) (= (. (at (. tx Outputs) (old (len (. tx Outputs)))) Satoshis) satoshis) (= (bytes (. (at (. tx Outputs) (old (len (. tx Outputs)))) LockingScript)) (spec.p2pkh_script (bsub (b58dec addr) 1 21))))))
 //@   check[C15.pay_to_address_only_valid] (=> (= err nil) (spec.addr_ok (b58dec addr)))
+
+// ---- C04 (partial): installing unlocking scripts ----
+// Assumption on user-supplied unlockers: an Unlocker writes no memory that existed before the call (it does not modify the
+// transaction it signs) and its answer is a function of the unlocker, the transaction object, the input index and the hash
+// type (unlock_of, uninterpreted). Not checked of unlocker.Simple (external signing code); what Simple returns is specified
+// in package unlocker. An UnlockerGetter likewise (getter_of).
+//@ smt (declare-fun unlock_of (Ref Ref Int Int) Ref)
+//@ smt (declare-fun getter_of (Ref Ref) Ref)
+//@ iface bt.Unlocker.UnlockingScript
+//@   assigns
+//@   trusted "an Unlocker writes no memory that existed before the call; its result is a function of (unlocker, transaction object, input index, hash type)"
+//@   define (=> (= err nil) (= uscript (unlock_of recv tx (. up InputIdx) (. up SigHashFlags))))
+//@ iface bt.UnlockerGetter.Unlocker
+//@   assigns
+//@   trusted "an UnlockerGetter writes no memory that existed before the call; its result is a function of (getter, locking script object)"
+//@   opt params ctx lockingScript
+//@   define (=> (= r1 nil) (= r0 (getter_of recv lockingScript)))
+//@ func bt.(*Tx).InsertInputUnlockingScript
+//@   requires (< index (len (. tx Inputs)))
+//@   assigns (. (at (. tx Inputs) index) UnlockingScript)
+//@   ensures[C04.insert_script] (= (= err nil) (not (nil? (old (at (. tx Inputs) index)))))
+//@   ensures[C04.insert_script_at] (=> (= err nil) (= (. (at (. tx Inputs) index) UnlockingScript) s))
+//@ func bt.(*Tx).FillInput
+//@   requires (< (. params InputIdx) (len (. tx Inputs)))
+//@   ensures[C04.fill_no_unlocker] (=> (nil? unlocker) (distinct err nil))
+//@   ensures[C04.fill_installs] (=> (= err nil) (= (. (at (. tx Inputs) (. params InputIdx)) UnlockingScript) (unlock_of unlocker tx (. params InputIdx) (spec.eff_flag (. params SigHashFlags)))))
+//@   ensures[C04.fill_frame] (and (= (. tx Inputs) (old (. tx Inputs))) (= (. tx Outputs) (old (. tx Outputs))) (forall ((k Int)) (=> (and (<= 0 k) (< k (len (. tx Inputs)))) (and (= (at (. tx Inputs) k) (old (at (. tx Inputs) k))) (=> (distinct (at (. tx Inputs) k) (at (. tx Inputs) (. params InputIdx))) (= (. (at (. tx Inputs) k) UnlockingScript) (old (. (at (. tx Inputs) k) UnlockingScript))))))))
+//@ func bt.(*Tx).FillAllInputs
+//@   requires (spec.inputs_nonnil tx)
+//@   requires (forall ((j Int) (k Int)) (=> (and (<= 0 j) (< j k) (< k (len (. tx Inputs)))) (distinct (at (. tx Inputs) j) (at (. tx Inputs) k))))
+//@   ensures[C04.fill_all] (=> (= err nil) (forall ((k Int)) (=> (and (<= 0 k) (< k (len (. tx Inputs)))) (= (. (at (. tx Inputs) k) UnlockingScript) (unlock_of (getter_of ug (. (at (. tx Inputs) k) PreviousTxScript)) tx k 65)))))
+//@   loop 0 invariant (forall ((j Int) (k Int)) (=> (and (<= 0 j) (< j k) (< k (len (. tx Inputs)))) (distinct (at (. tx Inputs) j) (at (. tx Inputs) k))))
+//@   loop 0 invariant (forall ((k Int)) (=> (and (<= 0 k) (< k (len (. tx Inputs)))) (and (= (at (. tx Inputs) k) (old (at (. tx Inputs) k))) (= (. (at (. tx Inputs) k) PreviousTxScript) (old (. (at (. tx Inputs) k) PreviousTxScript))))))
+//@   loop 0 invariant (and (= (. tx Inputs) (old (. tx Inputs))) (spec.inputs_nonnil tx) (forall ((k Int)) (=> (and (<= 0 k) (<= k rangeindex)) (= (. (at (. tx Inputs) k) UnlockingScript) (unlock_of (getter_of ug (. (at (. tx Inputs) k) PreviousTxScript)) tx k 65)))))
